@@ -179,8 +179,15 @@ def run(E: Engine, rep: Report, tier: str) -> dict:
     short = any(l.kind == "raise" and any(_is(x, "len(Q_t) < " + MT) is not None for x in _sym.conj_of(l.cond)) for l in Sg_.log)
     rep.check(short, "CLOSURE", "generate_trap_coordinates|fails-if-too-few-traps", "raises when fewer than min_traps sites were found", "generate_trap_coordinates can return fewer traps than the minimum", E.where(gen))
     wal = E.fn("pulser.register.register.Register.with_automatic_layout")
-    src = norm(wal.node)
-    for need in ("max_layout_filling", "min_atom_distance", "max_radial_distance", "min_layout_traps", "max_layout_traps"):
-        rep.check(f"device.{need}" in src, "CLOSURE", f"Register.with_automatic_layout|uses-device.{need}", "the device's own limit is handed to the generator", f"with_automatic_layout no longer uses device.{need}", E.where(wal))
+    from .symutil import arg as _arg12
+
+    gcalls = _S(E, wal).calls("generate_trap_coordinates")
+    if not gcalls:
+        raise AnalysisError("anchor: Register.with_automatic_layout no longer calls generate_trap_coordinates")
+    # generator parameter <- the device limit it must carry (a crossed pair, e.g. min_traps=device.max_layout_traps, breaks the guarantee)
+    wiring = {"max_layout_filling": "max_layout_filling", "min_trap_dist": "min_atom_distance", "max_radial_dist": "max_radial_distance", "min_traps": "min_layout_traps", "max_traps": "max_layout_traps"}
+    for par, need in wiring.items():
+        ok = all((a_ := _arg12(l, -1, par)) is not None and _sym.contains(a_, _sym.Pattern(f"device.{need}").term) and not any(_sym.contains(a_, _sym.Pattern(f"device.{o}").term) for o in wiring.values() if o != need) for l in gcalls)
+        rep.check(ok, "CLOSURE", f"Register.with_automatic_layout|uses-device.{need}", f"generate_trap_coordinates({par}=...) carries device.{need}", f"with_automatic_layout no longer hands device.{need} to the generator's `{par}`: {[_sh(_arg12(l, -1, par), 60) if _arg12(l, -1, par) is not None else 'absent' for l in gcalls]}", E.where(wal))
     rep.floor("CLOSURE", 7)
     return {"functions_analysed": len(fns), "none_rule": st}
